@@ -485,6 +485,14 @@ EvalEntry(G, entry, txt, p) ==
     ELSE IF G.rules[entry].params # <<>> THEN Ill
     ELSE EvalRule(G, entry, EmptyEnv, txt, p)
 
+(* curried class entry point  C.parse(v1, ..., vn)(text, pos): values bind positionally *)
+EvalEntryArgs(G, entry, vals, txt, p) ==
+    IF entry \notin DOMAIN G.rules \/ p > Len(txt) THEN Ill
+    ELSE LET ps == G.rules[entry].params IN
+         IF Len(ps) # Len(vals) THEN Ill
+         ELSE EvalRule(G, entry, [x \in {ps[k] : k \in 1..Len(ps)} |->
+                                    <<"val", vals[CHOOSE k \in 1..Len(ps) : ps[k] = x]>>], txt, p)
+
 Outcome(G, entry, txt, p, full) ==
     LET r == EvalEntry(G, entry, txt, p) IN
     CASE r.t = "ill"  -> <<"ill">>
